@@ -454,8 +454,8 @@ fn main() {
     let ctx = Ctx::new("C07", Level::Exploration);
     ctx.maybe_replay(&replay_value);
     ctx.set_rule(
-        "cases = (point set, float type, metric, leaf size); point sets: all multisets of <=5 points of {0..4} (1-D, duplicates), \
-         all subsets of <=5 (quick) / <=6 (thorough) points of the 3x3 lattice, their generic-position images (constant jitter table), \
+        "cases = (point set, float type, metric, leaf size); point sets: all multisets of <=5 / <=6 points of {0..4} (1-D, duplicates), \
+         all subsets of <=5 (quick) / <=7 (thorough) points of the 3x3 lattice, their generic-position images (constant jitter table), all subsets of <=4 / <=6 corners of the unit cube, \
          a dimension sweep d in {1,2,3,8,16} over all multisets of <=4 of 5 pool vectors, plus empty / single / all-equal sets; \
          per case: every lattice and half-lattice query + one far query, k = 0..n+2, radii = 0, every distinct query-point distance exactly, \
          every midpoint between consecutive distances, below the minimum, beyond the maximum; all three index kinds. \
@@ -468,12 +468,12 @@ fn main() {
     // ---------------- enumerate cases ----------------
     let mut sets: Vec<(String, Vec<Vec<f64>>, usize)> = Vec::new();
     // A: 1-D multisets with duplicates (includes empty, single, all-equal)
-    for ms in en::multisets_upto(5, 0, 5, 5) {
+    for ms in en::multisets_upto(5, 0, ctx.pick(5, 6), 6) {
         sets.push(("1d_multiset".into(), ms.iter().map(|&i| vec![i as f64]).collect(), 1));
     }
     // B, C: 2-D lattice subsets and generic-position images
     let lat = en::lattice_points(2, 3);
-    let nmax = ctx.pick(5, 6);
+    let nmax = ctx.pick(5, 7);
     for ss in en::subsets_upto(9, 1, nmax) {
         let p: Vec<Vec<f64>> = ss.iter().map(|&i| lat[i].iter().map(|&v| v as f64).collect()).collect();
         sets.push(("lattice3x3".into(), p.clone(), 2));
@@ -482,6 +482,12 @@ fn main() {
             .map(|&i| lat[i].iter().enumerate().map(|(j, &v)| v as f64 + en::jitter(i, j)).collect())
             .collect();
         sets.push(("lattice3x3_generic".into(), g, 2));
+    }
+    // B3: 3-D cube lattice {0,1}^3 (many equidistant ties in three dimensions)
+    let cube = en::lattice_points(3, 2);
+    for ss in en::subsets_upto(8, 1, ctx.pick(4, 6)) {
+        let p: Vec<Vec<f64>> = ss.iter().map(|&i| cube[i].iter().map(|&v| v as f64).collect()).collect();
+        sets.push(("cube2x2x2".into(), p, 3));
     }
     // D: dimension sweep
     for &d in &[1usize, 2, 3, 8, 16] {
@@ -513,6 +519,17 @@ fn main() {
                 }
             }
             q.push(vec![-50.0, 75.0]);
+            q
+        } else if fam == "cube2x2x2" {
+            let mut q = Vec::new();
+            for a in 0..=2 {
+                for b in 0..=2 {
+                    for c in 0..=2 {
+                        q.push(vec![a as f64 * 0.5, b as f64 * 0.5, c as f64 * 0.5]);
+                    }
+                }
+            }
+            q.push(vec![9.0, -9.0, 30.0]);
             q
         } else {
             vec![vec![0.0; *d], vec![1.0; *d], vec![0.5; *d], (0..*d).map(|j| if j % 2 == 0 { 1.5 } else { -0.5 }).collect(), vec![100.0; *d]]
